@@ -272,3 +272,43 @@ reg(
                 "texts and marker placements; the suite pins a few dozen hand-written layouts."),
     level_note="The prediction (25 lines of string algebra) is trusted.",
 )
+
+reg(
+    "C13",
+    title="string filters compute their documented function",
+    level="exploration",
+    technique="runtime monitoring: independent reference functions (written from each filter's documentation) and algebraic-law monitors over filter results read structurally through the dump plugin; bounded-exhaustive strings over a 10-character alphabet incl. non-ASCII, combining mark and emoji, every integer argument in [-6, 8], random long strings, filter chains",
+    design_ref="DESIGN.md §5 C13",
+    rule=("a case = (filter or chain, input x, arguments). Inputs: every string of length <= 4 (quick: <= 3 exhaustively + seeded samples of length 4) over {a, B, space, LF, TAB, ',', '<', e-acute, U+0301, thumbs-up}; "
+          "string arguments of length <= 2; two-argument replace/replace_first on x <= 3; every integer in [-6, 8] for truncate/truncatewords (alone and with an ellipsis) and every offset x length pair for slice; "
+          "array inputs for join/first/last/size; default on nil/false/empty values; random strings <= 200 characters (ASCII, Latin-1, combining marks, emoji, ZWJ sequences, flags, CRLF, Unicode spaces, CJK) through every filter; "
+          "chains of 1..4 filters. Each cell is compared with a reference written from the filter's documentation, or with laws only where the documentation is silent (split|join identity, strip = lstrip.rstrip, truncate length, "
+          "slice contiguity, chain = composition of separately rendered steps). distinct = distinct (template, data) by content; non-trivial = the input x is non-empty."),
+    profiles={"quick": ["checked"], "thorough": ["checked", "release"]},
+    floor={"quick": 1000000, "thorough": 30000000},
+    assumptions=["truncate: every combination of {characters, grapheme clusters} is accepted for the length decision, the cut position and the ellipsis size (an existing unit test pins a string that matches neither pure reading); bytes are never accepted",
+                 "truncatewords is compared exactly only where 'word' is unambiguous (single spaces); split of the empty string may be [] or ['']",
+                 "upcase/downcase use std's Unicode case mapping as reference primitive"],
+    level_text=("Reference-implementation and law monitors over an exhaustive small-string space that contains multi-byte characters, a combining mark and an emoji, so byte/character confusions cannot hide. Right level: "
+                "the property quantifies over all strings; unit tests use a few ASCII examples."),
+    level_note="The reference functions and the small UAX#29 subset used for cluster boundaries are trusted.",
+)
+
+reg(
+    "C16",
+    title="escape / escape_once / url_encode / url_decode / strip_html",
+    level="exploration",
+    technique="runtime monitoring: character-class scanners, inverse functions and idempotence monitors over exhaustive strings on the three entity/URL/tag alphabets plus random texts seeded with entity, tag and percent tokens",
+    design_ref="DESIGN.md §5 C16",
+    rule=("a case = one input in one group (escape: 1 render; escape_once: once and twice; url: encode, encode|decode, decode; strip_html: 1 render). Inputs: all strings of length <= 5 (quick 4) over "
+          "{<, >, &, \", ', ;, #, a, l, t, m, p, space, e-acute} and all sequences of <= 4 (quick 3) entity tokens; all strings of length <= 4 over {%, +, 2, F, f, space, /, e-acute, emoji}; all strings of length <= 6 (quick 5) over "
+          "{<, >, !, -, /, s, c, r, i, p, t, a}; random texts <= 200 characters mixed with entity/tag/percent tokens (incl. overlong and surrogate percent sequences). distinct = distinct (group, input); "
+          "non-trivial = the input contains a character the group treats specially."),
+    profiles={"quick": ["checked"], "thorough": ["checked"]},
+    floor={"quick": 300000, "thorough": 5000000},
+    assumptions=["which strings count as 'existing entities' for escape_once is undocumented: safety, invertibility and idempotence are asserted, and equality with 'escape of the non-entity parts' under either of two readings",
+                 "url_decode of a '%' not followed by two hex digits may be left literal (percent-encoding crate behaviour) or be an error"],
+    level_text=("Exhaustive over alphabets that spell every entity, near-entity, percent sequence and tag shape, with oracles stated as scans and inverses. Right level: the properties are universally quantified "
+                "safety/inversion claims over strings."),
+    level_note="The scanners and the reference url decoder are trusted.",
+)
